@@ -55,6 +55,9 @@ type ContractCase struct {
 	MaxH int   `json:"max_h"`
 	MinW int   `json:"min_w"`
 	MinH int   `json:"min_h"`
+	// Prior: the same widget instance was drawn with this maximum before
+	// (a window that changed its size); nil = not drawn before
+	Prior *[2]int `json:"prior,omitempty"`
 }
 
 func (w WSpec) content() string {
@@ -183,15 +186,23 @@ func runContract(c ContractCase) string {
 		Max:        vxfw.Size{Width: uint16(c.MaxW), Height: uint16(c.MaxH)},
 		Characters: vaxis.Characters,
 	}
-	// twice: the second draw sees whatever state the first left behind
-	for pass := 0; pass < 2; pass++ {
+	// several times with the same instance: each draw sees whatever state
+	// the draws before it left behind; the contract holds for every one
+	ctxs := []vxfw.DrawContext{ctx, ctx}
+	if c.Prior != nil {
+		prior := ctx
+		prior.Max = vxfw.Size{Width: uint16(c.Prior[0]), Height: uint16(c.Prior[1])}
+		prior.Min = vxfw.Size{}
+		ctxs = []vxfw.DrawContext{prior, ctx, prior, ctx}
+	}
+	for _, ctx := range ctxs {
 		var s vxfw.Surface
 		var err error
 		if p := guard(func() { s, err = w.Draw(ctx) }); p != "" {
-			return fmt.Sprintf("%s.Draw(max %dx%d) panicked: %s", c.W.Kind, c.MaxW, c.MaxH, p)
+			return fmt.Sprintf("%s.Draw(max %dx%d) panicked: %s", c.W.Kind, ctx.Max.Width, ctx.Max.Height, p)
 		}
 		if err != nil {
-			return fmt.Sprintf("%s.Draw(max %dx%d) returned an error: %v", c.W.Kind, c.MaxW, c.MaxH, err)
+			return fmt.Sprintf("%s.Draw(max %dx%d) returned an error: %v", c.W.Kind, ctx.Max.Width, ctx.Max.Height, err)
 		}
 		if m := checkTree(s, "root"); m != "" {
 			return m
@@ -315,6 +326,19 @@ func TestContract(t *testing.T) {
 		}
 		if c.W.Kind == "textfield" && c.MaxW > 1<<18 {
 			c.MaxW = 300
+		}
+		if bounded && !big && c.W.Repeat == 0 && rapid.IntRange(0, 2).Draw(rt, "redrawn") != 0 {
+			// the same instance drawn before with another maximum: the same
+			// width and another height, or another small size
+			pw := c.MaxW
+			if rapid.IntRange(0, 3).Draw(rt, "prior-other-width") == 1 {
+				pw = rapid.SampledFrom([]int{0, 1, 2, 3, 5, 7, 20}).Draw(rt, "pw")
+			}
+			ph := rapid.SampledFrom([]int{0, 1, 2, 3, 4, 5, 7, 40}).Draw(rt, "ph")
+			if pw*ph <= 1<<17 {
+				c.Prior = &[2]int{pw, ph}
+				harness.R.Label(sub, "same instance drawn before with another maximum")
+			}
 		}
 		c.MinW = rapid.SampledFrom([]int{0, 0, 1, c.MaxW}).Draw(rt, "minw")
 		c.MinH = rapid.SampledFrom([]int{0, 0, 1, c.MaxH}).Draw(rt, "minh")
